@@ -397,4 +397,71 @@ theorem build_valuesAt (dict : List (List (List Nat) × List Nat)) (p : List (Li
     simp only [List.foldl_cons, ih, insert_valuesAt, idsOf, List.filter_cons]
     by_cases h : e.1 = p <;> simp [h]
 
+/-! ### plain-statement helpers for `StringMatcher.find` (C16(f)–(h)) -/
+
+/-- What the matcher theorems need of a token list of `q`: every token is non-empty and inside `q`, tokens are in
+order and do not overlap. Both tokenizers deliver it for every string (`tokenizeSimple_ok`, `tokenizeNWU_ok` in
+`RTV/Props/C16.lean`). -/
+structure TokOK (q : List Nat) (toks : List Tok) : Prop where
+  pos : ∀ t ∈ toks, 0 < t.len
+  hi : ∀ t ∈ toks, t.start + t.len ≤ q.length
+  ordered : toks.Pairwise (fun a b => a.start + a.len ≤ b.start)
+
+/-- the `for r in …: result.append(…)` loop of `StringMatcher.find` raises nowhere if no iteration does -/
+theorem mapM_option_isSome {α β} (f : α → Option β) (l : List α) (h : ∀ a ∈ l, (f a).isSome = true) :
+    (l.mapM f).isSome = true := by
+  induction l with
+  | nil => simp
+  | cons a rest ih =>
+    have ha := h a (by simp)
+    have hr := ih (fun b hb => h b (by simp [hb]))
+    obtain ⟨x, hx⟩ := Option.isSome_iff_exists.1 ha
+    obtain ⟨xs, hxs⟩ := Option.isSome_iff_exists.1 hr
+    simp [List.mapM_cons, hx, hxs]
+
+/-- … and then its results are exactly the images of the loop's inputs -/
+theorem mapM_option_mem {α β} (f : α → Option β) : ∀ (l : List α) (rs : List β), l.mapM f = some rs →
+    ∀ r, r ∈ rs ↔ ∃ a ∈ l, f a = some r := by
+  intro l
+  induction l with
+  | nil => intro rs h r; simp at h; subst h; simp
+  | cons a rest ih =>
+    intro rs h r
+    simp only [List.mapM_cons] at h
+    cases ha : f a with
+    | none => simp [ha] at h
+    | some x =>
+      cases hr : rest.mapM f with
+      | none => simp [ha, hr] at h
+      | some xs =>
+        simp [ha, hr] at h
+        subst h
+        have := ih xs hr r
+        simp only [List.mem_cons, this]
+        constructor
+        · rintro (h1 | ⟨b, hb, hfb⟩)
+          · exact ⟨a, Or.inl rfl, by rw [ha, h1]⟩
+          · exact ⟨b, Or.inr hb, hfb⟩
+        · rintro ⟨b, (hb | hb), hfb⟩
+          · subst hb; rw [ha] at hfb; left; exact (Option.some.inj hfb).symm
+          · right; exact ⟨b, hb, hfb⟩
+
+theorem ordered_getElem_le (toks : List Tok) (h : toks.Pairwise (fun a b => a.start + a.len ≤ b.start))
+    (i j : Nat) (hij : i < j) (hj : j < toks.length) :
+    (toks[i]'(by omega)).start + (toks[i]'(by omega)).len ≤ (toks[j]'hj).start := by
+  rw [List.pairwise_iff_getElem] at h
+  exact h i j (by omega) hj hij
+
+/-- Python `q[a : a + (b - a)]` for `0 ≤ a ≤ b ≤ len(q)` is the plain slice: no clamping, no negative index. -/
+theorem sliceInt_nat (q : List Nat) (a b : Nat) (hab : a ≤ b) (hb : b ≤ q.length) :
+    sliceInt q (a : Int) ((a : Int) + ((b : Int) - a)) = (q.drop a).take (b - a) := by
+  have e : (a : Int) + ((b : Int) - a) = b := by omega
+  rw [e]
+  simp only [sliceInt, slice]
+  have h1 : ¬ ((a : Int) < 0) := by omega
+  have h2 : ¬ ((b : Int) < 0) := by omega
+  have h3 : min (a : Int) (q.length : Int) = a := by omega
+  have h4 : min (b : Int) (q.length : Int) = b := by omega
+  simp [h1, h2, h3, h4]
+
 end RTV.Match
